@@ -92,7 +92,7 @@ pub fn run_corpus(rc: &RunCtx, cfg: &BConfig, layouts: &[(usize, Layout)], tag: 
                 return bail(format!("the bitbybit crate does not build from /repo: {}", cargo::tail(&out.stderr, 5)));
             }
             let (by_mod, un) = cargo::attribute(&out.diags);
-            if by_mod.is_empty() || attempts > 3 || pi > 0 {
+            if by_mod.is_empty() || attempts > 3 {
                 return bail(format!(
                     "generated corpus {} does not build (profile {}): {} unattributed errors; {}",
                     tag,
@@ -104,7 +104,7 @@ pub fn run_corpus(rc: &RunCtx, cfg: &BConfig, layouts: &[(usize, Layout)], tag: 
             for (m, msgs) in by_mod {
                 if let Some(id) = m.strip_prefix('m').and_then(|x| x.parse::<usize>().ok()) {
                     live.retain(|(i, _)| *i != id);
-                    uncompilable.push((id, msgs.into_iter().map(|(l, t)| format!("line {}: {}", l, t)).collect()));
+                    uncompilable.push((id, msgs.into_iter().map(|(l, t)| format!("[profile {}] line {}: {}", profile, l, t)).collect()));
                 }
             }
             if live.is_empty() {
